@@ -168,6 +168,7 @@ func runC02(c *kit.Ctx) {
 
 	// ---- R4 ---------------------------------------------------------------
 	c.StartRule("R4", "multi action index: writer and reader agree, m.calls is never reordered", 6)
+	unsentCallsAreCleared(c)
 	{
 		var k1 int64 = -1
 		var idxVal ssa.Value
